@@ -587,7 +587,7 @@ impl Drop for CaseGuard {
 fn start_watchdog(property: String, args: Args) {
     static STARTED: std::sync::Once = std::sync::Once::new();
     STARTED.call_once(|| {
-        let limit = args.extra_u64("case-cpu-limit", if args.thorough() { 900 } else { 240 }) as f64;
+        let limit = args.extra_u64("case-cpu-limit", if args.thorough() { 2700 } else { 900 }) as f64;
         std::thread::spawn(move || loop {
             std::thread::sleep(std::time::Duration::from_secs(5));
             for s in watch_slots() {
